@@ -10,12 +10,13 @@ From PV Require Import Base.Bytes Base.Res Base.PyStr Model.Path Model.ConnPath 
      Proofs.ConnPathRef Proofs.ConnPathRender Proofs.C15P.
 Open Scope Z_scope.
 
-(* "every path string in the documented grammar yields the stated host, TCP port and route", for
-   the routes whose hops satisfy [ok] *)
-Definition C15_sound_for (ok : list hop -> bool) : Prop :=
+(* "every path string in the documented grammar yields the stated host, TCP port and route":
+   every CIP port number 1..65535 (by name or number), every link 0..255 or dotted quad, the
+   shortcuts; [fits]: the route has a wire form (always, up to 25 hops: C15_side_conditions) *)
+Definition C15_sound : Prop :=
   forall a sp auto pl hs,
     wf_route a = true -> wf_spelling sp a = true -> hops_of auto (r_shape a) = Some hs ->
-    ok hs = true -> fits hs = true ->
+    fits hs = true ->
     outcome (render sp a) auto pl = inr (r_host a, r_tcp a, route_wire pl hs).
 
 Definition C15_rest : Prop :=
@@ -44,7 +45,7 @@ Definition C15_rest : Prop :=
         /\ match v_tcp (ref_parse auto s) with
            | TcpNone => t = None | TcpOk p => t = Some p | TcpBad => False | TcpLenient => True end
         /\ match v_route (ref_parse auto s) with
-           | RouteOk hs => small_ports hs = true -> fits hs = true -> b = route_wire pl hs
+           | RouteOk hs => fits hs = true -> b = route_wire pl hs
            | RouteReject _ => False
            | RouteUnspec => True
            end)
@@ -53,12 +54,7 @@ Definition C15_rest : Prop :=
   /\ (forall s auto pl, accepts s auto pl ->
         in_grammar_strict auto s = true \/ silent (ref_parse auto s) = true).
 
-(* full strength: every CIP port number 1..65535 *)
-Definition C15_full : Prop := C15_sound_for (fun _ => true) /\ C15_rest.
-
-(* the exact excluded class: some hop names a CIP port number above 14 (the encoder has no extended
-   port identifier: DESIGN.md F20) *)
-Definition C15_guard (hs : list hop) : bool := negb (small_ports hs).
+Definition C15_full : Prop := C15_sound /\ C15_rest.
 
 Lemma C15_rest_holds : C15_rest.
 Proof.
@@ -77,36 +73,25 @@ Proof.
   - exact accepts_in_grammar_strict_partial.
 Qed.
 
-(* "h/15/1": port 15 needs the extended port identifier 0F 0F 00; the code emits 0F 01 *)
-Definition refute_route : route_ast := mkRoute [104] None (Explicit [mkHop 15 (Slot 1)]).
-Definition refute_spelling : spelling := mkSp 0 [mkHopSp 47 (ByNumber 0) 47 0] 47 0.
-Theorem C15_full_refuted : ~ C15_full.
-Proof.
-  intros [H _].
-  specialize (H refute_route refute_spelling false false [mkHop 15 (Slot 1)]
-                eq_refl eq_refl eq_refl eq_refl eq_refl).
-  vm_compute in H. discriminate.
-Qed.
-Print Assumptions C15_full_refuted.
+Theorem C15_holds : C15_full.
+Proof. split; [exact parse_sound|exact C15_rest_holds]. Qed.
+Print Assumptions C15_holds.
 
-Theorem C15_guarded : C15_sound_for (fun hs => negb (C15_guard hs)) /\ C15_rest.
-Proof.
-  split; [|exact C15_rest_holds].
-  intros a sp auto pl hs Hwf Hsp Hh Hg Hf. unfold C15_guard in Hg. rewrite Bool.negb_involutive in Hg.
-  exact (parse_sound a sp auto pl hs Hwf Hsp Hh Hg Hf).
-Qed.
-Print Assumptions C15_guarded.
+(* regression witness of the repaired defect (fix a95af7d): "h/15/1" uses the extended port
+   identifier 0F 0F 00 (before the fix the code emitted 0F 01) *)
+Example C15_port_15 :
+  outcome [104; 47; 49; 53; 47; 49] false false = inr ([104], None, [2; 15; 15; 0; 1]).
+Proof. vm_compute. reflexivity. Qed.
 
 (* the drivers store what the parse returned *)
 Theorem C15_driver_init : forall d a sp hs,
   wf_route a = true -> wf_spelling sp a = true -> hops_of (auto_slot_of d) (r_shape a) = Some hs ->
-  C15_guard hs = false -> fits hs = true ->
+  fits hs = true ->
   exists segs, driver_init d (render sp a)
                = Ok (mkCfg (r_host a) (match r_tcp a with Some p => p | None => TCP_DEFAULT end) segs)
                /\ forall pl, encode_route segs pl = Ok (route_wire pl hs).
 Proof.
-  intros d a sp hs Hwf Hsp Hh Hg Hf. apply driver_init_sound; auto.
-  unfold C15_guard in Hg. now destruct (small_ports hs).
+  intros d a sp hs Hwf Hsp Hh Hf. now apply driver_init_sound.
 Qed.
 Print Assumptions C15_driver_init.
 
@@ -147,6 +132,15 @@ Proof.
 Qed.
 Print Assumptions C15_rejection_classes.
 
+(* side conditions of the statements above, discharged for what the property quantifies over:
+   every route of at most 25 hops fits a wire form; every IPv4 address is a well-formed link *)
+Theorem C15_side_conditions :
+  (forall hs, forallb wf_hop hs = true -> (List.length hs <= 25)%nat -> fits hs = true)
+  /\ (forall a b c d, 0 <= a <= 255 -> 0 <= b <= 255 -> 0 <= c <= 255 -> 0 <= d <= 255 ->
+        wf_link (Addr (addr_of_octets a b c d)) = true).
+Proof. split; [exact short_routes_fit|exact addr_of_octets_wf]. Qed.
+Print Assumptions C15_side_conditions.
+
 (* the grammar and the reference reader are one specification: every rendered string is read back *)
 Theorem C15_render_read_back : forall a sp auto,
   wf_route a = true -> wf_spelling sp a = true ->
@@ -178,7 +172,6 @@ Definition ex_spelling : spelling :=
 Example C15_nonvacuous :
   wf_route ex_route = true /\ wf_spelling ex_spelling ex_route = true
   /\ render ex_spelling ex_route = s2t "plc1:0044818\backplane,02/enet\10.11.12.13,bp/0"%string
-  /\ C15_guard [mkHop 1 (Slot 2); mkHop 2 (Addr (s2t "10.11.12.13"%string)); mkHop 1 (Slot 0)] = false
   /\ outcome (render ex_spelling ex_route) false false
      = inr (s2t "plc1"%string, Some 44818,
             [9; 1; 2; 18; 11] ++ s2t "10.11.12.13"%string ++ [0; 1; 0])
